@@ -219,7 +219,7 @@ def api_events(M, o):
     """table/fields events (code -> spec) from one API result"""
     inst = M.inst
     ev = [{"op": "table", "P": inst["P"], "Fn": inst["Fn"], "Fd": inst["Fd"], "H": inst["H"], "A": inst["A"],
-           "w": inst["w"], "reads": inst["reads"]}]
+           "w": inst["w"], "reads": inst["reads"], "tile": inst.get("tile", 1)}]
     full = o["pm"][-1]
 
     def q(x, s):
@@ -385,7 +385,10 @@ def random_instance(rnd):
         w = [rnd.randint(1, 3), 0, rnd.randint(1, 3)][:K]
         reads = [{"cells": [0, 0, -1, 0], "cnt": rnd.randint(1, 3)}, {"cells": [1, 1, 1, 1], "cnt": 120}]
         Fn = rnd.choice([0, 3, 8])
-    return {"P": P, "m": "random", "Fn": Fn, "Fd": 16, "pat": "random", "K": K, "N": N, "H": H, "A": A, "w": w, "reads": reads}
+    inst = {"P": P, "m": "random", "Fn": Fn, "Fd": 16, "pat": "random", "K": K, "N": N, "H": H, "A": A, "w": w, "reads": reads}
+    if not high and P <= 3 and K <= 3 and N == 2 and max(r["cnt"] for r in reads + [{"cnt": 0}]) <= 3 and len(reads) <= 3:
+        inst["tile"] = 70      # a long locus: the two SNV columns of haplotypes and reads repeated 70 times (140 SNVs)
+    return inst
 
 
 # --------------------------------------------------------------------------- command line level
